@@ -879,6 +879,23 @@ def gen_opts(rng, k=None):
     return opts_from_bits(bits, req)
 
 
+UNEVEN_REQ = [True, True, ["rays"], ["waveforms", "rays", "noise"], ["rays", "noise"], ["triggers", "rays"],
+              ["particles"], ["particles", "rays"]]
+
+
+def gen_opts_uneven(rng):
+    """Option mixes in which the tables get DIFFERENT numbers of rows per event (metadata groups
+    shorter than the table scanned before them by the append-mode counter recovery): rays /
+    waveforms / particles written only on trigger, used with a low trigger rate and 1-3
+    particles per event."""
+    o = {"write_particles": True, "write_triggers": rng.random() < 0.85, "write_antenna_triggers": False,
+         "write_rays": True, "write_noise": rng.random() < 0.4, "write_waveforms": rng.random() < 0.6,
+         "require_trigger": rng.choice(UNEVEN_REQ)}
+    if o["write_triggers"] and rng.random() < 0.3:
+        o["write_antenna_triggers"] = True
+    return o
+
+
 def records_particles(o):
     r = o["require_trigger"]
     lst = [] if isinstance(r, bool) else ([r] if isinstance(r, str) else r)
@@ -894,7 +911,7 @@ class Tags:
         return self.n
 
 
-def gen_add(rng, det, tags, p_bad=0.25, maxp=3, maxw=3):
+def gen_add(rng, det, tags, p_bad=0.25, maxp=3, maxw=3, p_trig=0.6):
     """One add() call.  With probability p_bad it is malformed in one of the ways that make
     HDF5Writer.add raise at some stage."""
     nparts = rng.choice([1, 1, 1, 2, 2, 3, maxp]) if rng.random() > 0.03 else 0
@@ -908,7 +925,7 @@ def gen_add(rng, det, tags, p_bad=0.25, maxp=3, maxw=3):
     mw = max(len(w) for w in a["waves"])
     r = rng.random()
     if r < 0.45:
-        a["trig"] = rng.random() < 0.6
+        a["trig"] = rng.random() < p_trig
     else:
         x = []
         for name in rng.sample(CUSTOM, rng.choice([0, 1, 1, 2, 3])):
@@ -916,7 +933,7 @@ def gen_add(rng, det, tags, p_bad=0.25, maxp=3, maxw=3):
                 x.append([name, rng.random() < 0.5])
             else:
                 x.append([name, [rng.random() < 0.5 for _ in range(mw + rng.choice([0, 0, 1]))]])
-        a["trig"] = {"g": rng.random() < 0.6, "x": x}
+        a["trig"] = {"g": rng.random() < p_trig, "x": x}
     if rng.random() < p_bad:
         kind = rng.choice(["trig_none", "trig_bad", "no_global", "short_list", "rays_none", "rays_len",
                            "pols_none", "pols_outer", "pols_inner", "pols_vec", "meta", "noise", "wave"])
@@ -950,13 +967,16 @@ def gen_add(rng, det, tags, p_bad=0.25, maxp=3, maxw=3):
     return a
 
 
-def gen_filecase(rng, nadds, opts=None, det=None, p_bad=0.25, nsessions=None):
+def gen_filecase(rng, nadds, opts=None, det=None, p_bad=0.25, nsessions=None, p_trig=0.6):
     det = det or rng.choice([1, 2, 2, 3, 4])
     opts = opts or gen_opts(rng)
     tags = Tags(rng)
-    adds = [gen_add(rng, det, tags, p_bad=p_bad) for _ in range(nadds)]
+    adds = [gen_add(rng, det, tags, p_bad=p_bad, p_trig=p_trig) for _ in range(nadds)]
     ns = nsessions or rng.choice([1, 1, 2, 3])
-    cuts = sorted(rng.randrange(0, nadds + 1) for _ in range(ns - 1))
+    if nsessions and nsessions > 1 and nadds >= nsessions:
+        cuts = sorted(rng.sample(range(1, nadds), ns - 1))      # every session non-empty
+    else:
+        cuts = sorted(rng.randrange(0, nadds + 1) for _ in range(ns - 1))
     sessions, prev = [], 0
     for c in cuts + [nadds]:
         sessions.append(adds[prev:c])
@@ -1276,16 +1296,21 @@ def case_key(prefix, case):
 
 
 def split_equal(recs):
-    """Append-split group: every file must read like the single-session file 0."""
+    """Append-split group: every file must READ BACK like the single-session file 0 (same adds
+    accepted, same number of events, same data for every event through every accessor).
+    Raw layout differences (dataset lengths, index starts, counters) are not judged here: they
+    are compared with the model by the correspondence."""
     ref = recs[0]
     for i, r in enumerate(recs[1:], 1):
-        for k in ("index", "nrows", "thrown", "outcomes"):
-            if r.get(k) != ref.get(k):
-                return "the file written in %d sessions differs from the single-session file in %s" % (i, k)
+        if r.get("outcomes") != ref.get("outcomes"):
+            return "the adds accepted when writing in several sessions (split %d) differ from the single-session run" % i
+        if len(r.get("index", [])) != len(ref.get("index", [])):
+            return "the file written in several sessions (split %d) holds %d events, the single-session file %d" % (
+                i, len(r.get("index", [])), len(ref.get("index", [])))
         if r.get("events") != ref.get("events"):
             return "the events read from the file written in several sessions (split %d) differ from the single-session file" % i
-        if r["counters"][-1] != ref["counters"][-1]:
-            return "writer counters after the last session %s differ from the single-session run %s" % (r["counters"][-1], ref["counters"][-1])
+        if r.get("thrown") != ref.get("thrown"):
+            return "total_thrown of the file written in several sessions (split %d) is %s, single session %s" % (i, r.get("thrown"), ref.get("thrown"))
     return ""
 
 
@@ -1337,6 +1362,15 @@ def shrink(case, fails, budget=30):
             if attempt(c):
                 best = c
                 break
+    # split groups: look for a single (single-session file, split file) pair that still fails
+    if best.get("split_group") and len(best["files"]) > 2:
+        for fi in range(1, len(best["files"])):
+            c = copy.deepcopy(best)
+            c["files"] = [c["files"][0], c["files"][fi]]
+            c["queries"] = [[q[0], (0 if q[1] == 0 else 1)] + q[2:] for q in c.get("queries", []) if q[0] != "gen" and q[1] in (0, fi)]
+            if attempt(c):
+                best = c
+                break
     # files: keep file 0 (reference of split groups / generator lists) and drop others one at a time
     if len(best["files"]) > 2 and not any(q[0] == "gen" for q in best.get("queries", [])):
         for fi in reversed(range(1, len(best["files"]))):
@@ -1365,18 +1399,23 @@ def shrink(case, fails, budget=30):
 def run_batch(ctx, cases, prop, stats, query_gen=None, with_model=True, label=""):
     """Run implementation (+ model) on the cases, compare, judge.  Returns the list of
     (case, kind, message) problems, kind in {'property', 'corr'}."""
+    import time as _time
     problems = []
     impls = []
+    _t0 = _time.time()
     for i, case in enumerate(cases):
         impl = run_impl(case, ctx.scratch, tag="%s%d" % (label, i), query_gen=query_gen)
         impls.append(impl)
         _stats(stats, case, impl)
     outs = None
+    _t1 = _time.time()
     if with_model:
         try:
             outs = eval_models(ctx, cases)
         except RuntimeError as e:
             stats["model_eval_error"] = str(e)[-800:]
+    stats.setdefault("timing_s", []).append({"batch": label, "cases": len(cases), "implementation": round(_t1 - _t0, 1),
+                                              "model": round(_time.time() - _t1, 1)})
     for i, (case, impl) in enumerate(zip(cases, impls)):
         nontrivial = any(r["ctor"] is None and "ok" in r["outcomes"] for r in impl["files"])
         ctx.case(key=case_key(prop, case), nontrivial=nontrivial,
@@ -1437,14 +1476,14 @@ def report(ctx, prop, problems, fails_property, fails_corr):
     ctx.oblige("corr:IOModel-vs-pyrex", not corr and "model_eval_error" not in ctx.extra.get("input_distribution", {}),
                "; ".join(p[2][:300] for p in corr[:3]) or ctx.extra.get("input_distribution", {}).get("model_eval_error", ""))
     seen = 0
-    for case, _, msg in propv[:3]:
-        small = shrink(case, fails_property)
+    for case, _, msg in propv[:(3 if ctx.thorough else 2)]:
+        small = shrink(case, fails_property, budget=(30 if ctx.thorough else 14))
         vs = fails_property(small) or [msg]
         ctx.fail(case_key(prop.lower(), small), vs[0], {"kind": "case", "prop": prop, "case": small, "what": vs[0]}, witness=True)
         seen += 1
     if corr and not propv:
         case, _, msg = corr[0]
-        small = shrink(case, fails_corr, budget=12) if fails_corr else case
+        small = shrink(case, fails_corr, budget=(12 if ctx.thorough else 3)) if fails_corr else case
         ctx.extra["corr_counterexample"] = {"case": small, "difference": msg}
         ctx.fail(case_key(prop.lower() + "-corr", small), "model and implementation disagree: " + msg[:400],
                  {"kind": "case", "prop": prop, "case": small, "what": "model/implementation disagreement: " + msg}, witness=False)
